@@ -81,6 +81,22 @@ def cases(draw, dag=False):
         forced += [["Qa", "u1"], ["Qb", "u1"]]
         scen.append([["eval", ["Qp"], "pc", [], None, "()"], ["del_cells", ["Qa"], "u1"],
                      ["eval", ["Qp"], "pc", [], None, "()"]])
+    if not dag and draw(st.integers(0, 2)) == 0:
+        # a cells that reads a space-level reference by name, read from another space; another cells is defined in
+        # its space afterwards; the reference is re-assigned twice
+        extra = [["new_space", [], "Qr", None, None], ["new_space", [], "Qd", None, None],
+                 ["set_ref", ["Qr"], "rq", ["v", 3], None],
+                 ["new_cells", ["Qr"], mk("uq", [["x", None]], ["bin", "+", ["name", "rq"], ["var", "x"]])],
+                 ["new_cells", ["Qr"], mk("vq", [], ["lit", 1])],
+                 ["new_cells", ["Qd"], mk("dq", [], ["call", ["attr", ["attr", ["name", "_model"], "Qr"], "uq"],
+                                                     [["lit", 1]], "()"])]]
+        for op in extra:
+            ops.append(op)
+            gen.apply_ref(G, op)
+        forced.append(["Qr", "uq"])
+        scen.append([["eval", ["Qd"], "dq", [], None, "()"], ["set_ref", ["Qr"], "rq", ["v", 40], None],
+                     ["eval", ["Qd"], "dq", [], None, "()"], ["set_ref", ["Qr"], "rq", ["v", 500], None],
+                     ["eval", ["Qd"], "dq", [], None, "()"]])
     allcells = sorted({(tuple(op[1]), op[2]["name"]) for op in ops if op[0] == "new_cells"}
                       - {(tuple(f[:-1]), f[-1]) for f in forced})
     n = min(len(allcells), draw(st.sampled_from([1, 2, 3, 3, 4, 4, 5, 5]))) if allcells else 0
@@ -92,7 +108,9 @@ def cases(draw, dag=False):
     queries = []
     pinned = set()
     nsteps = draw(st.integers(8, 20))
-    at = {draw(st.integers(0, nsteps - 1)): sc for sc in scen}
+    at = {}
+    for sc in scen:
+        at.setdefault(draw(st.integers(0, nsteps - 1)), []).extend(sc)
     for step in range(nsteps):
         if step in at:
             for op in at[step]:
